@@ -146,4 +146,32 @@ def renderResult (E : Env) : Except Err Packet → String
     let disp := okOrPanic (p.displayDefined E)
     s!"ok[pk:{pk},sig:{sig},ts:{ts},dns:{dns},relay:{relay},txt:{rec_},all:{rec_},disp:{disp},dbg:{disp}]"
 
+/-! ### untrusted-input callers
+
+`PkarrRelayClient::resolve(endpoint_id)` (iroh/src/address_lookup/pkarr.rs): the HTTP response
+of the pkarr relay is untrusted.  A non-success status (`!status.is_success()`, i.e. outside
+200..=299) is an error; otherwise the body is handed to
+`SignedPacket::from_relay_payload(&endpoint_id, &payload)` — with the key that was ASKED for —
+and nothing else is tried. -/
+
+inductive ResolveErr where
+  | httpRequest (status : Nat)
+  | verify (e : Err)
+deriving DecidableEq, Repr
+
+/-- What `PkarrRelayClient::resolve` does with a response (`asked` = the 32 bytes of the
+endpoint id that was looked up). -/
+def resolveViaRelay (E : Env) (asked : Bytes) (status : Nat) (body : Bytes) :
+    Except ResolveErr Packet :=
+  if 200 ≤ status ∧ status ≤ 299 then
+    match fromRelayPayload E asked body with
+    | .ok p => .ok p
+    | .error e => .error (.verify e)
+  else .error (.httpRequest status)
+
+def renderResolve (E : Env) : Except ResolveErr Packet → String
+  | .ok p => renderResult E (.ok p)
+  | .error (.httpRequest _) => "err:Http"
+  | .error (.verify e) => s!"err:Verify:{e.name}"
+
 end IrohModel.C32
